@@ -382,13 +382,13 @@ func HistWorker(pm *Params) (*Stats, []*Failure) {
 	st := NewStats()
 	var fails []*Failure
 	var dist []uint64
-	digest := &Digest{}
+	total := &Digest{}
 	rc := &refCache{self: pm.SelfExe, m: map[uint64]string{}}
 	transp = newTranspLogger(pm.TranspOut)
 	defer func() { transp.close(); transp = nil }()
 	for i := pm.From; i < pm.Count; i += pm.Stride {
 		seed := rng.RunSeed(pm.VerifSeed, "C17", i)
-		digest.Add(fmt.Sprintf("run %d", i))
+		digest := &Digest{}
 		r := rng.New(rng.Sub(seed, "gen"))
 		pool, files, srcs := buildPool(r)
 		hr := rng.New(rng.Sub(seed, "history"))
@@ -434,12 +434,16 @@ func HistWorker(pm *Params) (*Stats, []*Failure) {
 					fmt.Sprintf("code emitted for %s %s differs between the whole file and the statement compiled alone", c.Kind, c.Name), &HistReplay{Clause2: c})
 			}
 		}
+		total.Add(digest.Hex())
+		if pm.PerRun {
+			st.PerRun = append(st.PerRun, fmt.Sprintf("%d %s", i, digest.Hex()))
+		}
 		if len(fails) >= pm.MaxFail {
 			break
 		}
 	}
 	st.Replayed = rc.n
-	st.Digest = digest.Hex()
+	st.Digest = total.Hex()
 	if pm.DistinctOut != "" {
 		writeHashes(pm.DistinctOut, dist)
 	}
